@@ -20,7 +20,43 @@ use vcore::{Ctx, Outcome};
 const READ_BUF: u64 = 8192; // futures::io::BufReader default capacity = "one read buffer"
 const SHORT: Duration = Duration::from_millis(40);
 const LONG: Duration = Duration::from_secs(10);
-const MARGIN: Duration = Duration::from_millis(250);
+/// the harness' own timer is created after the circuit's and expires this much later (see `Sentinel`)
+const SENTINEL_EXTRA: Duration = Duration::from_millis(10);
+/// upper bound for waiting on the harness' own timer (the timer thread is starved): Inconclusive, never a violation
+const SENTINEL_PATIENCE: Duration = Duration::from_secs(20);
+
+/// A `futures_timer::Delay` of the harness, created *after* the circuit's duration timer and expiring strictly later.
+/// Both live on the same global timer (one helper thread, one heap ordered by expiry; an expired entry is marked and its
+/// waker called before the next entry is looked at), so once the sentinel reports `Ready` the circuit's timer has expired
+/// *and* has been marked so: a poll of the copy future from then on finds its timer ready whatever the machine load is.
+struct Sentinel(futures_timer::Delay);
+
+impl Sentinel {
+    fn new(circuit_duration: Duration) -> Self {
+        Sentinel(futures_timer::Delay::new(circuit_duration + SENTINEL_EXTRA))
+    }
+    fn fired(&mut self) -> bool {
+        let w = noop_waker();
+        let mut cx = Context::from_waker(&w);
+        std::future::Future::poll(Pin::new(&mut self.0), &mut cx).is_ready()
+    }
+    /// wait (real time) until the sentinel fired; `idle` is called between looks. false = gave up.
+    fn wait(&mut self, idle: &mut dyn FnMut() -> bool) -> bool {
+        let t0 = Instant::now();
+        loop {
+            if self.fired() {
+                return true;
+            }
+            if idle() {
+                return true;
+            }
+            if t0.elapsed() > SENTINEL_PATIENCE {
+                return false;
+            }
+            std::thread::sleep(Duration::from_millis(1));
+        }
+    }
+}
 
 #[derive(Clone, Debug, Serialize, Deserialize)]
 pub enum COp {
@@ -68,7 +104,7 @@ fn op() -> impl Strategy<Value = COp> {
 fn strategy() -> impl Strategy<Value = Case> {
     (
         prop_oneof![2 => Just(0u32), 3 => 1u32..=200, 3 => 201u32..=9000, 3 => 9001u32..=40000],
-        prop::bool::weighted(0.04),
+        prop::bool::weighted(0.08),
         [dir(false), dir(true), dir(false), dir(true)],
         proptest::collection::vec(op(), 0..=30),
     )
@@ -141,6 +177,7 @@ fn check(case: &Case) -> Outcome {
     let dur = if case.short_timer { SHORT } else { LONG };
     let start = Instant::now();
     let fut = libp2p_relay::verif_copy(a_r, b_r, dur, max);
+    let mut sentinel = if case.short_timer { Some(Sentinel::new(dur)) } else { None };
     let result: Slot<(io::Result<()>, Duration)> = Slot::new();
     let r2 = result.clone();
     let ex = Exec::new();
@@ -227,14 +264,30 @@ fn check(case: &Case) -> Outcome {
     }
     let mut res = result.take();
     let mut waited_for_timer = false;
-    if res.is_none() && case.short_timer {
-        // nothing else can wake the future now: only the duration limit remains
+    if let (None, Some(sen)) = (&res, sentinel.as_mut()) {
+        // nothing else can wake the future now: only the duration limit remains. The future is polled whenever it was
+        // woken; once the harness' later timer has fired the circuit's has too, and the future gets one more poll
         waited_for_timer = true;
         let r3 = result.clone();
-        ex.drain_until(10_000, SHORT + MARGIN, &mut || r3.is_set());
+        let fired = sen.wait(&mut || {
+            ex.drain(10_000);
+            r3.is_set()
+        });
+        if !fired {
+            return Outcome::Inconclusive(format!("the harness' own {:?} timer did not fire within {SENTINEL_PATIENCE:?} (timer thread starved; not a violation)", SHORT + SENTINEL_EXTRA));
+        }
+        let woken = !ex.runnable().is_empty();
+        if !result.is_set() {
+            ex.poll_task(0);
+            ex.drain(10_000);
+        }
         res = result.take();
         if res.is_none() {
-            return Outcome::Inconclusive(format!("duration limit of {SHORT:?} not reported within {:?} (timing; not a violation)", SHORT + MARGIN));
+            return Outcome::fail(
+                "C49:no-timeout-when-polled-after-max-duration",
+                json!({"duration_ms": dur.as_millis() as u64, "elapsed_ms": start.elapsed().as_millis() as u64, "runnable_when_the_deadline_had_passed": woken, "a_eof": sides[0].eof_sent, "b_eof": sides[1].eof_sent,
+                       "a_written": sides[0].sent.len(), "b_written": sides[1].sent.len(), "polls": ex.total_polls()}),
+            );
         }
     }
     let all_delivered = sides[1].recv == sides[0].sent && sides[0].recv == sides[1].sent;
@@ -298,15 +351,187 @@ fn check(case: &Case) -> Outcome {
     Outcome::pass_l(nontrivial, labels)
 }
 
+// ---------------------------------------------------------------------------------------------
+// the duration limit, decidably: generated circuit states before the deadline, idle peers across it
+
+const DEADLINE: Duration = Duration::from_millis(30);
+
+#[derive(Clone, Debug, Serialize, Deserialize)]
+pub struct DCase {
+    /// [A→relay, relay→A, B→relay, relay→B]
+    dirs: [DirCfg; 4],
+    /// what happens on the circuit before the deadline
+    ops: Vec<COp>,
+    /// run the future to quiescence (delivering everything, EOFs included) before the peers go idle
+    settle_before: bool,
+    /// while the deadline passes: true = the future is polled whenever it woke itself (what an executor does);
+    /// false = it is not polled at all. In both cases it gets one poll after the deadline has certainly passed.
+    honour_wakeups: bool,
+}
+
+fn dop() -> impl Strategy<Value = COp> {
+    let side = 0u8..=1;
+    prop_oneof![
+        4 => (side.clone(), prop_oneof![3 => 1u16..=64, 2 => 65u16..=4000, 1 => 4001u16..=20000]).prop_map(|(s, n)| COp::Write(s, n)),
+        3 => (side.clone(), prop_oneof![1 => 1u16..=64, 3 => 65u16..=30000]).prop_map(|(s, n)| COp::Read(s, n)),
+        3 => side.prop_map(COp::Eof),
+        5 => Just(COp::Poll),
+        1 => Just(COp::Spurious),
+    ]
+}
+
+fn dstrategy() -> impl Strategy<Value = DCase> {
+    ([dir(false), dir(true), dir(false), dir(true)], proptest::collection::vec(dop(), 0..=8), prop::bool::weighted(0.7), any::<bool>())
+        .prop_map(|(dirs, ops, settle_before, honour_wakeups)| DCase { dirs, ops, settle_before, honour_wakeups })
+}
+
+fn check_deadline(case: &DCase) -> Outcome {
+    let [a_in, a_out, b_in, b_out] = case.dirs.clone();
+    let (a_h, a_r) = simio::pair(a_in, a_out);
+    let (b_h, b_r) = simio::pair(b_in, b_out);
+    let mut sides = [
+        Side { h: a_h, r: a_r.clone(), sent: vec![], recv: vec![], eof_sent: false, eof_seen: false, ctr: 1 },
+        Side { h: b_h, r: b_r.clone(), sent: vec![], recv: vec![], eof_sent: false, eof_seen: false, ctr: 2 },
+    ];
+    let start = Instant::now();
+    let fut = libp2p_relay::verif_copy(a_r, b_r, DEADLINE, 0);
+    let mut sentinel = Sentinel::new(DEADLINE);
+    let result: Slot<(io::Result<()>, Duration)> = Slot::new();
+    let r2 = result.clone();
+    let ex = Exec::new();
+    ex.spawn(async move {
+        let r = fut.await;
+        r2.set((r, start.elapsed()));
+    });
+    for op in &case.ops {
+        match op {
+            COp::Write(s, n) => sides[*s as usize].write(*n as usize),
+            COp::Read(s, n) => {
+                if let Err(e) = sides[*s as usize].read(*n as usize) {
+                    return Outcome::fail("C49:harness-read-error", json!({"error": format!("{e:?}")}));
+                }
+            }
+            COp::Eof(s) => {
+                let sd = &mut sides[*s as usize];
+                sd.eof_sent = true;
+                sd.r.close_incoming();
+            }
+            COp::Poll => {
+                ex.step(0);
+            }
+            COp::Spurious => {
+                ex.poll_task(0);
+            }
+        }
+    }
+    if case.settle_before {
+        for _ in 0..10_000 {
+            if !ex.drain(100_000) {
+                return Outcome::Inconclusive("copy future kept waking for 100000 polls".into());
+            }
+            let mut progress = false;
+            for s in sides.iter_mut() {
+                while s.h.incoming_queued() > 0 {
+                    match s.read(65536) {
+                        Ok(0) => break,
+                        Ok(_) => progress = true,
+                        Err(e) => return Outcome::fail("C49:harness-read-error", json!({"error": format!("{e:?}")})),
+                    }
+                }
+            }
+            if !progress && ex.runnable().is_empty() {
+                break;
+            }
+        }
+    }
+    // the circuit's state as the peers go idle
+    let polls_before = ex.total_polls();
+    let done_before = result.is_set();
+    let in_time = start.elapsed() < DEADLINE;
+    let state: &'static str = match (sides[0].eof_sent, sides[1].eof_sent, sides[0].sent.len() + sides[1].sent.len() > 0) {
+        (true, true, _) => "state:both_closed",
+        (true, false, _) => "state:half_closed_by_a",
+        (false, true, _) => "state:half_closed_by_b",
+        (false, false, true) => "state:both_open_after_traffic",
+        (false, false, false) => "state:fully_idle",
+    };
+    // both peers stay idle while the deadline passes
+    let r3 = result.clone();
+    let honour = case.honour_wakeups;
+    let fired = sentinel.wait(&mut || {
+        if honour {
+            ex.drain(10_000);
+        }
+        r3.is_set()
+    });
+    if !fired {
+        return Outcome::Inconclusive(format!("the harness' own {:?} timer did not fire within {SENTINEL_PATIENCE:?} (timer thread starved; not a violation)", DEADLINE + SENTINEL_EXTRA));
+    }
+    // the circuit's timer has expired and called its waker (if it was given one) by now
+    let completed_by_itself = result.is_set();
+    let woken = !ex.runnable().is_empty();
+    let mut forced_poll = false;
+    if !completed_by_itself {
+        // one poll after the deadline: woken or not, there is no scheduling excuse from here on
+        forced_poll = !woken;
+        ex.poll_task(0);
+        ex.drain(100_000);
+    }
+    let detail = |res: &str| {
+        json!({"duration_ms": DEADLINE.as_millis() as u64, "elapsed_ms": start.elapsed().as_millis() as u64, "result": res, "state_when_peers_went_idle": state,
+               "polls_before_idling": polls_before, "settled_before_idling": case.settle_before, "polled_on_own_wakeups": honour, "runnable_when_the_deadline_had_passed": woken,
+               "a_eof": sides[0].eof_sent, "b_eof": sides[1].eof_sent, "a_written": sides[0].sent.len(), "b_written": sides[1].sent.len()})
+    };
+    let mut labels: Vec<&'static str> = vec![state];
+    match result.take() {
+        None => return Outcome::fail("C49:no-timeout-when-polled-after-max-duration", detail("Pending")),
+        Some((Ok(()), _)) => {
+            if !(sides[0].eof_sent && sides[1].eof_sent) {
+                return Outcome::fail("C49:completed-before-both-eof", detail("Ok"));
+            }
+            labels.push("ok_complete");
+            return Outcome::pass_l(false, labels);
+        }
+        Some((Err(e), elapsed)) if e.kind() == io::ErrorKind::TimedOut => {
+            if elapsed < DEADLINE {
+                return Outcome::fail("C49:timeout-before-max-duration", json!({"elapsed_ms": elapsed.as_millis() as u64, "duration_ms": DEADLINE.as_millis() as u64}));
+            }
+            // a future that returned Pending before the deadline has to get itself polled again when the deadline passes:
+            // an executor polls a task only when it was woken
+            if polls_before > 0 && !done_before && !completed_by_itself && !woken {
+                return Outcome::fail("C49:not-woken-when-max-duration-passed", detail("TimedOut, but only because the harness polled it unasked"));
+            }
+            labels.push("timed_out");
+            labels.push(if completed_by_itself { "timed_out_on_own_wakeup_polled_at_once" } else if forced_poll { "timed_out_on_unasked_poll_after_deadline" } else { "timed_out_on_own_wakeup_polled_late" });
+            if polls_before == 0 {
+                labels.push("never_polled_before_deadline");
+            }
+            if !in_time {
+                labels.push("preparation_overran_deadline");
+            }
+        }
+        Some((Err(e), _)) => return Outcome::fail("C49:error-before-limit", detail(&format!("Err({e:?})"))),
+    }
+    Outcome::pass_l(true, labels)
+}
+
 pub fn run(ctx: &mut Ctx) {
     ctx.assume("hook libp2p_relay::verif_copy only constructs the crate-private CopyFuture");
     ctx.assume("'one read buffer' is the 8192-byte default capacity of futures::io::BufReader used by CopyFuture; the bound is asserted on the sum over both directions (max + 2 x 8192)");
-    ctx.assume("duration limit: a timeout reported before the configured duration is a violation; a timeout not reported within duration + 250 ms of idling is Inconclusive (wall-clock), never a violation; 4 % of the cases use the 40 ms duration, the others 10 s (which must never fire)");
+    ctx.assume("duration limit: the harness owns a second futures_timer::Delay created after the circuit's and expiring 10 ms later on the same global timer (one thread, one expiry-ordered heap, each expired entry is marked and woken before the next is examined); when it reports Ready the circuit's timer has expired and called its waker. From then on a Pending answer to a poll is a violation (no wall-clock margin is used as a correctness signal); if the harness' own timer does not fire within 20 s the case is Inconclusive");
+    ctx.assume("a timeout reported before the configured duration is a violation; 8 % of the 'copy' cases use the 40 ms duration, the others 10 s (which must never fire)");
     ctx.check::<Case>(
         "copy",
-        "max_circuit_bytes 0 (unlimited) or 1..40000, duration 40 ms (4 %) or 10 s, 0..30 operations {write 1..20000 bytes on A|B, read <= n bytes on A|B, EOF on A|B, poll, spurious poll}, four generated pipe directions (chunk scripts, spurious Pending, bounded capacity towards the circuit ends), then drain to quiescence; non-trivial = the byte limit error, the timeout, or a complete bidirectional shutdown with data was observed",
+        "max_circuit_bytes 0 (unlimited) or 1..40000, duration 40 ms (8 %; after quiescence the future must time out: polled on its own wake-ups and once more when the deadline has certainly passed) or 10 s, 0..30 operations {write 1..20000 bytes on A|B, read <= n bytes on A|B, EOF on A|B, poll, spurious poll}, four generated pipe directions (chunk scripts, spurious Pending, bounded capacity towards the circuit ends), then drain to quiescence; non-trivial = the byte limit error, the timeout, or a complete bidirectional shutdown with data was observed",
         ctx.n(12_000, 500_000),
         &|| strategy().boxed(),
         &check,
+    );
+    ctx.check::<DCase>(
+        "deadline",
+        "max duration 30 ms, no byte limit; 0..8 operations {write, read, EOF on A|B (3/16), poll, spurious poll} over four generated pipe directions put the circuit into a state (fully idle / both open after traffic / half-closed by A / by B / both closed; never polled, polled, or (70 %) run to quiescence with everything delivered); then both peers stay idle while the deadline passes, the future being polled on its own wake-ups (50 %) or not at all, and once the harness' later timer has fired it gets one poll: it must end with TimedOut (not earlier than 30 ms), or Ok iff both sides had closed; if it had been polled before, its timer must have woken it; non-trivial = TimedOut observed; labels give the state distribution",
+        ctx.n(3_200, 64_000),
+        &|| dstrategy().boxed(),
+        &check_deadline,
     );
 }
